@@ -2,7 +2,9 @@
 #pragma once
 #include "../wrappers/views.h"
 #include <cstring>
-static inline uint64_t fnv(const uint8_t* p, size_t n) { uint64_t h = 1469598103934665603ULL; for (size_t i = 0; i < n; i++) { h ^= p[i]; h *= 1099511628211ULL; } return h; }
+// positional checksum of an image (linear: no 64-bit products of symbolic data, which SAT back ends cannot digest): sum of (i+1)*byte in the
+// low half, xor of position-rotated bytes in the high half
+static inline uint64_t fnv(const uint8_t* p, size_t n) { uint64_t s = 0, x = 0; for (size_t i = 0; i < n; i++) { s += (uint64_t)(i + 1) * p[i]; x ^= (uint64_t)p[i] << ((i * 5) % 24); } return (s & 0xffffffffULL) | (x << 32); }
 template<typename V> static inline int64_t emit(const V& v, uint8_t* out, uint64_t cap) { if (v.size() > cap) return -2; for (size_t i = 0; i < v.size(); i++) out[i] = v[i]; return (int64_t)v.size(); }
 static inline uint64_t dbits(double d) { uint64_t b; std::memcpy(&b, &d, 8); return b; }
 static inline double bitsd(uint64_t b) { double d; std::memcpy(&d, &b, 8); return d; }
